@@ -464,3 +464,19 @@ func fullArgs(in ssa.Instruction) []ssa.Value {
 	}
 	return c.Args
 }
+
+// nonRecvArgs: the arguments of a call without the receiver, whether the
+// method is called directly (receiver first in Args), through an interface, or
+// through a method value (receiver bound in the closure).
+func nonRecvArgs(in ssa.Instruction) []ssa.Value {
+	c := callCommon(in)
+	if c == nil {
+		return nil
+	}
+	if !c.IsInvoke() {
+		if f := c.StaticCallee(); f != nil && f.Signature.Recv() != nil && len(c.Args) > 0 {
+			return c.Args[1:]
+		}
+	}
+	return c.Args
+}
